@@ -1,10 +1,13 @@
 """C04 - built-in term similarities (clauses: GUARD, DISPATCH, SELECT, KIND)"""
 import re
 import absint
-from engines import float_div_sites, classify_selection, enum_arms, norm_name, kind_elements, kind_of_callee, KINDS
+from engines import float_div_sites, classify_selection, enum_arms, norm_name, kind_elements, kind_of_callee, KINDS, positive_edges
+from prov import params_of
 from prov import Prov
 
-CLAIM = ("(GUARD) every float division and ln in the built-in similarity code (similarity/defaults.rs) has a divisor/argument that a sign/zero "
+CLAIM = ("(IDENT) in GraphIc, Jc and Mutation - documented to score 1 for a term compared with itself - the identity test on the two terms is the "
+         "first decision: its true edge returns the constant 1 and every other result is produced only after the test failed; "
+         "(GUARD) every float division and ln in the built-in similarity code (similarity/defaults.rs) has a divisor/argument that a sign/zero "
          "abstract interpretation proves non-zero (positive for ln) at that point, so no NaN/infinity source exists (one named exemption: Jc); "
          "(DISPATCH) the arms of `Builtins::calculate`, `InformationContent::get_kind` and `Mutation::calculate` are not cross-wired; "
          "(SELECT) Resnik's fold selects the maximum starting from a non-negative constant; (KIND) the three Mutation helpers read only their own annotation kind.")
@@ -26,6 +29,7 @@ def axioms(c):
 
 
 def run(ck, prog, ctx):
+    ck.rule("IDENT", "identity shortcut is the first decision and returns 1 (must-pass-through, DESIGN 3.6)")
     ck.rule("GUARD", "divisor / ln argument proven NonZero / Pos by forward abstract interpretation with SwitchInt edge refinement (DESIGN 3.5)")
     ck.rule("DISPATCH", "in the region dominated by the arm of variant V no callee/field named after another variant V' (DESIGN 3.11)")
     ck.rule("SELECT", "direction of a two-way selection from (comparison op, operand returned on the true edge) (DESIGN 3.10)")
@@ -64,6 +68,51 @@ def run(ck, prog, ctx):
                 ok = c == absint.P or c is None
                 ck.ob("GUARD", key, ok, "%s: ln argument %s" % (oshort, "proven positive" if ok else "not proven positive (class %s)" % c), where=b.where(site["line"]))
     ck.floor("GUARD", "float divisions in similarity/defaults.rs", n_div, 7)
+
+    # ------------------------------------------------------------------ IDENT: identical terms score 1
+    pvl = Prov(prog, inline=False, bind_closures=False)
+    for name in ("GraphIc", "Jc", "Mutation"):
+        b = prog.body("<similarity::defaults::%s as similarity::Similarity>::calculate" % name)
+        if not ck.anchor("IDENT", "impl Similarity for " + name, b):
+            continue
+        tests = []
+        for bi, t in b.calls():
+            c = t.callee
+            if c.trait == "std::cmp::PartialEq" and c.method == "eq" and len(t.args) == 2 and re.search(r"HpoTermId|HpoTerm", c.def_args or ""):
+                p0 = params_of(pv.of_operand(b, t.args[0]), b.id)
+                p1 = params_of(pv.of_operand(b, t.args[1]), b.id)
+                if (p0, p1) in (({2}, {3}), ({3}, {2})):
+                    tests.append((bi, t))
+        if not tests:
+            ck.undecided("IDENT", name + "/test", "%s has no identity shortcut (the value for identical terms is then a property of the formula)" % name, where=b.where())
+            continue
+        bi, t = tests[0]
+        pos = positive_edges(b, pvl, bi)
+        if not pos:
+            ck.undecided("IDENT", name + "/test", "branch on the identity test not recognised", where=b.where(t.line))
+            continue
+        sbi, tg = pos[0]
+        ident_region = b.region((sbi, tg))
+        vals = set()
+        for r in ident_region:
+            for st in b.blocks[r].stmts:
+                if st.k == "assign" and st.place.local == 0 and st.place.is_local():
+                    vals.add(st.rv["op"].float_value() if st.rv["k"] == "use" and st.rv["op"].kind == "const" else "non-constant")
+        ck.ob("IDENT", name + "/value", vals == {1.0}, "%s returns %s for identical terms (documented: 1)" % (name, sorted(map(str, vals)) or "nothing"), where=b.where(t.line))
+        neg = [(sbi, o) for o in b.blocks[sbi].term.successors() if o != tg]
+        early = []
+        for r in sorted(b.reach):
+            if r in ident_region:
+                continue
+            blk = b.blocks[r]
+            defs0 = [st for st in blk.stmts if st.k == "assign" and st.place.local == 0 and st.place.is_local()]
+            if blk.term.k == "call" and blk.term.dest.is_local() and blk.term.dest.local == 0:
+                defs0.append(blk.term)
+            if defs0 and not any(b.edge_dominates(e, r) for e in neg):
+                early.append((r, defs0[0]))
+        ck.ob("IDENT", name + "/first-decision", not early,
+              ("%s produces every other result only after the identity test failed" % name) if not early else
+              ("%s can return a result (line %s) before the identity test: identical terms are not guaranteed to score 1" % (name, early[0][1].line)), where=b.where(t.line))
 
     # ------------------------------------------------------------------ DISPATCH
     def dispatch(body, enum_path, label_of_call, min_arms, what):
